@@ -419,6 +419,12 @@ class Check(PropertyCheck):
         'jax.eval_shape yields the shapes of the traced function and raises what it raises',
         'CompositionOperator.reduce / AlgebraicReductionRule restricted to the pairs (P, P.T), (P.T, P) (no other '
         'registered binary rule matches these classes; C01 covers the general driver)',
+        'the model has no index dtype: XArr stands for an integer array of any integer kind, XMask for dtype bool '
+        '(the code distinguishes only `dtype == bool`); every JAX integer dtype available with x64 off (int8, int16, '
+        'int32, uint8, uint16, uint32) is run against the same model term; int64/uint64 JAX index arrays need '
+        'jax_enable_x64 and are NOT exercised; NumPy index arrays / NumPy scalars (outside the annotated domain '
+        '`Integer[Array]` / `int`: indexed_axes and TransposeIndexRule raise on them), Python bools and rank-0 masks '
+        'are judged by the NumPy oracle only, not by the model',
         'correspondence harness harness/c12.py',
     ]
 
@@ -744,9 +750,18 @@ class Check(PropertyCheck):
             'untruthful unique_indices flags; (B) seeded legal tuples of <= 3 entries mixing ints, slices, full slices, an '
             'Ellipsis and at most one array entry, Ellipsis at every position of fixed tuples; (C) tuples with two array '
             'entries (gather read off the implementation); (D) pytrees of 2-3 leaves (equal shapes, different shapes, '
-            'different ranks; dict/list/tuple); (E) rejected inputs: two Ellipses, mask without out_structure, too many '
+            'different ranks; dict/list/tuple); (G) the integer KIND of index arrays: for every JAX dtype in '
+            '{int8,int16,int32,uint8,uint16,uint32} (x64 off; the arrays of the random classes B, C, D draw their kind '
+            'too): ALL value tuples of length <= 2 (3 sampled) on a (3,) leaf, ALL 0/1 arrays of the length of the axis '
+            '(the bit patterns of the masks of (A), as integers), seeded rank-0/1/2 arrays on every axis directly and '
+            'through an Ellipsis, repeated / non-repeated / negative-alias values x unique_indices None/False/True, '
+            'next to an int, a slice, a mask, a second array of another kind, in a two-leaf pytree - all compared with '
+            'the dtype-free model term; (H) oracle only: NumPy index arrays of the 8 integer dtypes and NumPy masks, '
+            'NumPy integer scalars (lenient: outside the annotated domain, an exception is accepted, a returned value '
+            'must be right), Python bools and rank-0 masks (strict); (E) rejected inputs: two Ellipses, mask without out_structure, too many '
             'indices with/without out_structure, arbitrary explicit out_structure; no-op expressions. pack: ALL masks of '
-            'size <= 4 (sampled above) x trailing dims x containers {bare, dict, list, tuple, StokesI, StokesIQU}. '
+            'size <= 4 (sampled above) x trailing dims x containers {bare, dict, list, tuple, StokesI, StokesIQU}, a '
+            'quarter of them also with the mask as a NumPy array. '
             'Levels: ctor (construction, structures, mv), lite (+ T.mv), full (+ both reductions and the dense matrices). '
             'Non-trivial: the operator selects something other than the whole leaf, or the input is rejected.'
         )
@@ -759,6 +774,18 @@ class Check(PropertyCheck):
             else:
                 kinds = ''.join(sorted({e[0] for e in c['idx']})) or 'empty'
                 k = f'index/{kinds}/leaves{len(c["ins"])}/{c["level"]}'
+                for e in c['idx']:  # second tally (not disjoint from the first): kind of every array / scalar entry
+                    t = None
+                    if e[0] == 'a':
+                        t = ('numpy:' if len(e) > 4 else 'jax:') + (e[3] if len(e) > 3 else 'int32')
+                    elif e[0] == 'm':
+                        t = 'numpy:bool' if len(e) > 3 else 'jax:bool'
+                    elif e[0] == 'i' and len(e) > 2:
+                        t = 'numpy-scalar:' + e[2]
+                    elif e[0] == 'b':
+                        t = 'python:bool'
+                    if t:
+                        d['entry-type/' + t] = d.get('entry-type/' + t, 0) + 1
             d[k] = d.get(k, 0) + 1
         return d
 
